@@ -259,6 +259,22 @@ def run_unit(ctx, p):
             ctx.cell('unit_ctor', form, str(p.get('check')))
             out = q.A
             again = sm.UnitQuaternion(np.array(out)).A
+        elif api == 'UnitQuaternion.unit':
+            # a UnitQuaternion holding numbers that were stored as given (norm=False, check=False): unit() normalises them
+            form = p.get('form', 'sv')
+            if form == 'sv':
+                q0 = sm.UnitQuaternion(float(v[0]), v[1:], norm=False, check=False)
+            else:
+                others = [np.asarray(x, dtype=np.float64) for x in p['others']]
+                q0 = sm.UnitQuaternion(np.vstack([v] + others), norm=False, check=False)
+            q = q0.unit()
+            if type(q) is not sm.UnitQuaternion or len(q) != len(q0):
+                ctx.bad('unit', dict(api=api, kind='wrong_type_or_length', form=form), 'UnitQuaternion.unit() returned %s of length %d' % (type(q).__name__, len(q)))
+                return
+            for x, o in zip([np.asarray(d_, dtype=np.float64) for d_ in q0.data], q.data):
+                judge_unit(ctx, api, x, o)
+            ctx.cell('unit_ctor', 'unit() after norm=False', form)
+            return
         elif api == 'Quaternion.unit.multi':
             vs = np.asarray(p['vs'], dtype=np.float64)
             q = sm.Quaternion([x for x in vs]).unit()
@@ -398,7 +414,7 @@ def run(ctx):
               'SO3': lambda: perturb(rng, gen.so3(rng), 3), 'SE3': lambda: perturb(rng, gen.se3(rng, hi=1e3), 3)}[c]
         drive(RUNNERS, ctx, 'pose_norm', dict(cls=c, T=[mk() for _ in range(m)]))
     for _ in range(ctx.scale(3500, 60000)):
-        api = ['base.unitvec', 'base.unitvec_norm', 'base.unit', 'Quaternion.unit', 'UnitQuaternion.ctor', 'Quaternion.unit.multi'][rng.integers(6)]
+        api = ['base.unitvec', 'base.unitvec_norm', 'base.unit', 'Quaternion.unit', 'UnitQuaternion.ctor', 'Quaternion.unit.multi', 'UnitQuaternion.unit'][rng.integers(7)]
         n = 4 if api not in ('base.unitvec', 'base.unitvec_norm') else int([1, 2, 3, 6][rng.integers(4)])
         r = rng.random()
         if r < 0.3:       # already unit (to rounding) or unit with noise
@@ -416,6 +432,10 @@ def run(ctx):
             if p['form'] in ('list_of_vecs', 'Nx4'):
                 k = int(rng.integers(1, 4)) if p['form'] == 'list_of_vecs' else int([1, 2, 4, 5][rng.integers(4)])
                 p['others'] = [rng.normal(size=4) * gen.logu(rng, 1e-3, 1e3) for _ in range(k)]
+        if api == 'UnitQuaternion.unit':
+            p['form'] = ['sv', 'Nx4'][rng.integers(2)]
+            if p['form'] == 'Nx4':
+                p['others'] = [rng.normal(size=4) * gen.logu(rng, 1e-3, 1e3) for _ in range(int([1, 2, 4][rng.integers(3)]))]
         if api == 'Quaternion.unit.multi':
             p['vs'] = [v] + [rng.normal(size=4) * gen.logu(rng, 1e-3, 1e3) for _ in range(int(rng.integers(1, 4)))]
         drive(RUNNERS, ctx, 'unit', p)
